@@ -230,6 +230,12 @@ func (c1 stringConst) binaryOp(op ast.OperatorType, c2 constant) (constant, erro
 	case ast.OperatorGreaterEqual:
 		return boolConst(s1 >= s2), nil
 	case ast.OperatorAddition:
+		// Repeated doubling of a constant makes its length exponential in
+		// the length of the source.
+		const maxLen = 1 << 24
+		if len(s1)+len(s2) > maxLen {
+			return nil, errors.New("constant string too long")
+		}
 		return s1 + s2, nil
 	}
 	return nil, errInvalidOperation
